@@ -66,9 +66,16 @@ def dimensions_part(dimensions):
         for dim in dims.keys():
             (custom_dims if dim.startswith('dim_') else predefined_dims).append(dim)
         dim_keys = sorted(predefined_dims) + sorted(custom_dims)
-        return os.path.join(*(map(lambda k: k + "-" + str(dims.get(k, 'default')), dim_keys)))
+        return os.path.join(*(map(lambda k: _safe_dim_component(k + "-" + str(dims.get(k, 'default'))), dim_keys)))
     else:
         return ""
+
+
+def _safe_dim_component(name):
+    """one directory name for a dimension: no separators, no NUL, never a dot segment"""
+    for sep in ('/', '\\', '\x00'):
+        name = name.replace(sep, '_')
+    return name
 
 
 def level_part(level):
